@@ -13,6 +13,7 @@ import (
 	crosschainkeeper "github.com/functionx/fx-core/v8/x/crosschain/keeper"
 	erc20keeper "github.com/functionx/fx-core/v8/x/erc20/keeper"
 	erc20types "github.com/functionx/fx-core/v8/x/erc20/types"
+	ibcmiddlewaretypes "github.com/functionx/fx-core/v8/x/ibc/middleware/types"
 	"github.com/functionx/fx-core/v8/zzverif/models"
 	"github.com/functionx/fx-core/v8/zzverif/rt"
 )
@@ -104,4 +105,34 @@ func VerifC19MiddlewareSettles() {
 	}
 	rt.Assert(!ek.DeleteIBCTransferRelation(ctx, srcA, seqA), "the settled transfer's tracking record is gone")
 	rt.Assert(ek.DeleteIBCTransferRelation(ctx, srcB, seqB), "the other in-flight transfer keeps its tracking record")
+}
+
+// VerifC18IbcCallFailure: the EVM call carried by an incoming IBC transfer's memo. Whenever the
+// call does not succeed (keeper error, revert, out of gas, invalid jump) the handler reports an
+// error, so that the enclosing packet callback is acknowledged as failed and IBC core discards
+// everything the packet did; it reports success only for a call that succeeded.
+func VerifC18IbcCallFailure() {
+	if sdk.GetConfig().GetBech32AccountAddrPrefix() != fxtypes.AddressPrefix {
+		fxtypes.SetConfig(false)
+	}
+	ms := models.NewMultiStore("eth")
+	ctx := models.NewContext(ms, 100, 1700000000)
+	evm := models.NewEVM()
+	k := Keeper{evmKeeper: evm}
+	outcome := rt.Choose("callOutcome", 5)
+	switch outcome {
+	case 1:
+		evm.CallFails = true
+	case 2:
+		evm.CallVmErr = true // execution reverted
+	case 3:
+		evm.CallVmErr, evm.VmErrText = true, "out of gas"
+	case 4:
+		evm.CallVmErr, evm.VmErrText = true, "invalid jump destination"
+	}
+	packet := &ibcmiddlewaretypes.IbcCallEvmPacket{To: verifContract.Hex(), Value: sdkmath.ZeroInt(), Data: "aabb"}
+	err := k.HandlerIbcCallEvm(ctx, common.BytesToAddress(verifUserA), packet)
+	rt.Cover("called")
+	rt.Assert(evm.Calls == 1, "the contract is called exactly once")
+	rt.Assert((err == nil) == (outcome == 0), "the memo call reports success exactly when the contract call succeeded")
 }
